@@ -3,7 +3,7 @@
 From Coq Require Import String.
 From Coq Require Import List Ascii ZArith Bool.
 From CGV Require Import Base.PyBase Base.PyVal Base.NxGraph Dialect.DialectImpl Reader.ReaderImpl Reader.Grammar
-     Reader.ReaderCheck Gen.ReaderEnumGen Reader.ReaderSmall.
+     Reader.ReaderCheck Reader.Lin Reader.ReaderSim Reader.ReaderMult Gen.ReaderEnumGen Reader.ReaderSmall.
 Import ListNotations.
 Open Scope Z_scope.
 
@@ -52,6 +52,28 @@ Proof.
   intros g g'. vm_compute. intros H H'. injection H as <-. injection H' as <-. vm_compute. discriminate.
 Qed.
 
+(** UNBOUNDED, partial (node multipliers).  For every flat string of the grammar (see C04.v) reading the
+    shorthand and reading the string with every node multiplier written out give the SAME result: the same
+    graph with the same numbering and iteration orders (or the same error).  [expand_lin l] contains no
+    multiplier.  Missing from the full statement: branch multipliers (only bounded, C05_small, and refuted
+    in the classes below), the symbol after a node multiplier (class nodemult_sym), texts without braces. *)
+Theorem C05_nodes_partial : forall fo l, lins_ok fo l = true ->
+  read_cgsmiles fo (base_text l) = read_cgsmiles fo (base_text (expand_lin l)).
+Proof. exact reader_nodes_shorthand. Qed.
+Theorem C05_longhand_has_no_multiplier : forall l, forallb (fun i => negb (is_some (l_mult i))) (expand_lin l) = true.
+Proof. exact expand_lin_no_mult. Qed.
+(** the specification-level fact behind it: the denotation is invariant under writing multipliers out *)
+Theorem C05_denote_expand : forall fo l, forallb (lin_ok fo) l = true -> denote_lin fo (expand_lin l) = denote_lin fo l.
+Proof. exact denote_expand_lin. Qed.
+(** non-vacuity: {[#A]|3([#B]|12)[#C]} *)
+Example C05_nodes_nonvacuous :
+  let l := [{| l_open := false; l_name := S "A"; l_mult := Some [3%nat]; l_rings := []; l_bond := None; l_close := None |};
+            {| l_open := true; l_name := S "B"; l_mult := Some [1%nat; 2%nat]; l_rings := []; l_bond := None; l_close := Some None |};
+            {| l_open := false; l_name := S "C"; l_mult := None; l_rings := []; l_bond := None; l_close := None |}] in
+  lins_ok fo0 l = true /\ length (expand_lin l) = 16%nat
+  /\ exists g, read_cgsmiles fo0 (base_text l) = Ok g /\ length (nodes_data g) = 16%nat.
+Proof. vm_compute. repeat split. eexists. split; reflexivity. Qed.
+
 (** BOUNDED: on the complete enumerated list [small_c05] (ASTs with <= 3 nodes and up to two multipliers
     from {2,3} on nodes / {1,2,3} on branches, symbols {none,#}; and <= 4 nodes, multipliers 2 on nodes /
     {2,3} on branches, at most one '='), outside the defect classes, and when no multiplied unit contains a nested
@@ -61,6 +83,8 @@ Proof. exact C05_small_list. Qed.
 Theorem C05_small_not_vacuous : (500 <=? length (filter (fun a => Nat.eqb (class_C05 true a) 0 && negb (nested_any a)) small_c05))%nat = true.
 Proof. exact C05_small_nonvacuous. Qed.
 
+Print Assumptions C05_nodes_partial.
+Print Assumptions C05_denote_expand.
 Print Assumptions C05_small.
 Print Assumptions C05_refuted_double_close.
 Print Assumptions C05_refuted_nodemult_sym.
